@@ -67,7 +67,7 @@ def massless_part(view):
 
 
 def _pre(sy):
-    return [sy.x > 0, sy.x < 1, sy.Q2 > 0] + sy.mass_pre()
+    return [sy.x > 0, sy.x <= 1, sy.Q2 > 0] + sy.mass_pre()
 
 
 def raises_internal(sy, c, flavors, **kw):
